@@ -497,6 +497,10 @@ def C16(ctx):
         from . import rules_sib
         ctx.floor("R-SIB", "loop / bounding-box pairings (%s)" % cfg, rules_sib.check_candbbox(ctx, m, cfg), 2)
         try:
+            rules_sib.check_passthrough(ctx, m, cfg)
+        except AnalysisBroken as e:
+            ctx.broken("R-SIB", "passthrough: %s" % e)
+        try:
             rules_linked.check_hole_loop(ctx, m, cfg)
         except AnalysisBroken as e:
             ctx.broken("R-OWN", "L7: %s" % e)
